@@ -218,6 +218,7 @@ def normalise(mname, tree):
         done.extend(canonicalise_temps(mname, tree, load_reference()))
         return done
     for _round in (1, 2):
+        _swap_param_copies(tree, ref, done)
         _rename_locals_back(tree, ref, done, load_reference().get('__allfp__', {}).get(mname, {}))
         # new temporaries are substituted only now (a renamed reference local is not a new temporary); a second round of renaming sees
         # right-hand sides without them
@@ -229,6 +230,53 @@ def normalise(mname, tree):
     from .canon import restore_reference_temps
     done.extend(restore_reference_temps(mname, tree, load_reference()))
     return done
+
+
+def _swap_param_copies(tree, ref, done):
+    """The reference keeps the original value of a parameter in an alias and re-binds the parameter (`base = p; while p: ...; p = p.x`);
+    a refactoring that leaves the parameter alone and walks a copy instead (`cur = p; while cur: ...; cur = cur.x`, `p` read later) is the
+    same program with the two roles swapped.  Undone when: the reference local B is bound from the bare parameter P, B is missing,
+    P is never stored in the function, and a NEW local X is first bound by the top-level statement `X = P` (so it dominates what
+    follows) and re-bound later; no nested function reads P or X.  Then `X = P` becomes `B = P`, X is renamed P, and later reads of P
+    become B."""
+    for q, f in functions_of(tree):
+        rf = ref.get(q)
+        if not rf:
+            continue
+        ps = _params(f)
+        act_names = local_names(f)
+        for B, fp in rf.items():
+            if B in act_names or not fp.startswith('assign=') or fp[7:] not in ps:
+                continue
+            P = fp[7:]
+            if any(isinstance(n, ast.Name) and n.id == P and isinstance(n.ctx, (ast.Store, ast.Del)) for n in _own(f)):
+                continue
+            nested = [n for n in _own(f) if isinstance(n, FUNC + (ast.Lambda,))]
+            for i, st in enumerate(f.body):
+                if not (isinstance(st, ast.Assign) and len(st.targets) == 1 and isinstance(st.targets[0], ast.Name)
+                        and isinstance(st.value, ast.Name) and st.value.id == P):
+                    continue
+                X = st.targets[0].id
+                if X in rf or X in ps:
+                    continue
+                stores = [n for n in _own(f) if isinstance(n, ast.Name) and n.id == X and isinstance(n.ctx, ast.Store)]
+                if len(stores) < 2:
+                    continue
+                if any(isinstance(n, ast.Name) and n.id in (P, X) for fn in nested for n in ast.walk(fn)):
+                    continue
+                if any(isinstance(n, ast.Name) and n.id == X for s0 in f.body[:i] for n in ast.walk(s0)):
+                    continue
+                for s1 in f.body[i + 1:]:
+                    for n in ast.walk(s1):
+                        if isinstance(n, ast.Name) and n.id == P:
+                            n.id = B
+                for s1 in f.body[i + 1:]:
+                    for n in ast.walk(s1):
+                        if isinstance(n, ast.Name) and n.id == X:
+                            n.id = P
+                st.targets[0].id = B
+                done.append((q, X, '%s (parameter copy swapped with alias %s)' % (P, B)))
+                break
 
 
 def _rename_locals_back(tree, ref, done, refall=None):
